@@ -129,6 +129,7 @@ class C19(fw.Prop):
             {"kind": "multi", "sn": True, "sl": False, "shots": [[], [["a", 1]]]},
             {"kind": "multi", "sn": False, "sl": True, "shots": [[["a", [1, 0]]], [["b", 1]], [["a", 1]]]},
             {"kind": "bits", "entries": [["e", []], ["e[2]", 1]]},
+            {"kind": "collate", "shots": [[["a[0]", True], ["zz9", 1]], [["zz9", 1], ["a[0]", 1]]]},   # same pairs, other tag order: two Counter keys
             {"kind": "collate", "shots": [[["a", [[0, 1], [1]]], ["a", 1]]]},
         ]
 
